@@ -348,7 +348,14 @@ func (s *Subscriber) OnSyncFinished() (<-chan SyncFinished, context.CancelFunc) 
 	// not reading the channel immediately.
 	cq := chanqueue.New[SyncFinished]()
 	ch := cq.In()
-	s.addEventChan <- ch
+	select {
+	case s.addEventChan <- ch:
+	case <-s.closing:
+		// Subscriber is shutting down and the distributor may already have
+		// exited. Return a closed channel instead of blocking forever.
+		cq.Close()
+		ch = nil
+	}
 
 	cncl := func() {
 		if ch == nil {
